@@ -71,6 +71,7 @@ def main():
     if hasattr(cmod, "prepare"):
         cmod.prepare(opts)
     results = U.run_property(prop, opts, jobs=args.jobs, only=args.only)
+    results = _confirm_candidates(prop, opts, results)
     bounded = None
     if hasattr(cmod, "bounded") and not args.only:
         try:
@@ -78,6 +79,37 @@ def main():
         except Exception:  # noqa: BLE001
             bounded = {"error": traceback.format_exc(limit=8)}
     return report(prop, args, seed, t0, results, cmod, bounded)
+
+
+def _confirm_candidates(prop, opts, results):
+    """An obligation that the solver could neither prove nor refute on the full query, and for which only the weakened
+    (ground-instantiated) query gave a candidate counter-model, is discharged a second time - alone, after everything else has
+    finished - before it is reported: on a busy machine the first attempt may simply have run out of its wall-clock budget.  It is
+    reported only if it fails again; if it is proved the second time, the proof counts."""
+    cand = {}
+    for r in results:
+        names = {ob["name"] for ob in r["obligations"] if ob["status"] == "refuted-candidate"}
+        if names:
+            cand[r["instance"]] = names
+    if not cand or len(cand) > 8:
+        return results
+    again = {r["instance"]: r for r in U.run_property(prop, opts, jobs=1, instances=set(cand))}
+    out = []
+    for r in results:
+        r2 = again.get(r["instance"])
+        if r["instance"] not in cand or r2 is None or r2["error"]:
+            out.append(r)
+            continue
+        second = {}
+        for ob in r2["obligations"]:
+            second.setdefault(ob["name"], []).append(ob["status"])
+        obs = []
+        for ob in r["obligations"]:
+            if ob["status"] == "refuted-candidate" and second.get(ob["name"]) and all(st == "discharged" for st in second[ob["name"]]):
+                ob = dict(ob, status="discharged", backend="z3 (confirmation run)", detail=(ob.get("detail", "") + " proved on the confirmation run").strip())
+            obs.append(ob)
+        out.append(dict(r, obligations=obs))
+    return out
 
 
 def _generic_replay(prop, path):
